@@ -275,6 +275,35 @@ static void build(vf::Plan &plan, const vf::Opts &o)
                        return show_cps(cps);
                    });
     }
+    // long periodic texts: lengths around 2 KiB and 4 KiB (where per-block counters of a word-at-a-time loop would wrap) with a
+    // multi-unit character at the same offset of every 8-unit group, for each of the 8 offsets; and uniform texts
+    {
+        static const unsigned LL[] = {2039, 2040, 2041, 2047, 2048, 2049, 2055, 2056, 2057, 4095, 4096, 4097, 4104};
+        enum { NLL = sizeof LL / sizeof *LL };
+        plan.stage(strf("long periodic texts: %u lengths around 2048 / 4096 x 10 patterns (a wide character at offset k of every group of 8, k = 0..7; all wide; alternating) x 4 source forms", (unsigned)NLL),
+                   (uint64_t)NLL * 10 * 2,
+                   [](uint64_t i, Ctx &c) {
+                       unsigned pat = (unsigned)vf::take(i, 10), form = (unsigned)vf::take(i, 2), n = LL[i];
+                       auto wide = [&](unsigned k) { return pat < 8 ? k % 8 == pat : pat == 8 ? true : k % 2 == 0; };
+                       if (form == 0) {
+                           U32V b(n);
+                           for (unsigned k = 0; k < n; ++k) b[k] = wide(k) ? 0xE9 : 'a';
+                           run_latin1(c, b);  // Latin-1 bytes
+                       } else {
+                           U32V cps(n);
+                           for (unsigned k = 0; k < n; ++k) cps[k] = wide(k) ? (pat % 2 ? 0x20AC : 0x1F600) : 'a';
+                           RunOpts prim;
+                           prim.primary_only = true;
+                           run_all_encodings(c, cps, prim);  // the same scalars as UTF-8, UTF-16 and UTF-32 sources
+                       }
+                       c.nontrivial();
+                   },
+                   [](uint64_t i) {
+                       unsigned pat = (unsigned)vf::take(i, 10), form = (unsigned)vf::take(i, 2);
+                       return strf("%u units, pattern #%u, %s", LL[i], pat, form ? "UTF sources" : "Latin-1 source");
+                   })
+            .case_timeout_s = 20;
+    }
     plan.stage("latin1: all 256^2 byte pairs", 65536,
                [](uint64_t i, Ctx &c) {
                    U32V b = {(uint32_t)(i / 256), (uint32_t)(i % 256)};
